@@ -9,6 +9,14 @@ Import ListNotations.
 Local Open Scope string_scope.
 
 Definition expected_pins_C20 : list (string * string) := [
+  ("kbuild/compile.go:<declarations>", "daeaf360d53c0d25");
+  ("kbuild/compile.go:Context.BuildISO", "44362817dd5c3cee");
+  ("kbuild/compile.go:Context.CompileKernel", "b900a83ab1348e91");
+  ("kbuild/compile.go:Context.CompileLinkerScript", "e96c57788039086d");
+  ("kbuild/compile.go:Context.CompileRT0", "81e4cf6698f7ef11");
+  ("kbuild/compile.go:Context.LinkKernel", "432d8cbe3cdf6e0d");
+  ("kbuild/compile.go:Context.compileRT0", "c7369528234c54e0");
+  ("kbuild/compile.go:copyFile", "e715d08707946087");
   ("kbuild/redirects.go:<declarations>", "e7c243efd55b65be");
   ("kbuild/redirects.go:Context.CompleteRedirects", "da48c4822ea13a5a");
   ("kbuild/redirects.go:Context.FindRedirects", "3f30969fac2d10a9")
